@@ -23,7 +23,7 @@
 From IndModel Require Export Base.
 From IndGen Require Import Constants.
 From Coq Require Import Reals.
-From Flocq Require Core.Raux IEEE754.BinarySingleNaN IEEE754.Binary IEEE754.Bits.
+From Flocq Require Core.Zaux Core.Raux Core.Generic_fmt Core.FLT IEEE754.BinarySingleNaN IEEE754.Binary IEEE754.Bits.
 Open Scope N_scope.
 
 (** * Arithmetic interface: what the Rust code does with f64 *)
@@ -440,6 +440,18 @@ Definition steady_discount (A w : R) : R :=
 (** all reported (position, instant) pairs lie on the line pos = r * t + c *)
 Definition on_line (r c : R) (p t : N) : Prop := IZR (Z.of_N p) = r * secs t + c.
 Definition ev_on_line (r c : R) (x : ev) : Prop := on_line r c (ev_pos x) (ev_time x).
+
+Definition pt_on_line (r c : R) (pt : N * N) : Prop := on_line r c (fst pt) (snd pt).
+
+(** binary64 round-to-nearest-even with gradual underflow, and the two stall lengths (ns) at which
+    the weight W leaves the normal range of binary64 (4615 s: W < 2^-1022) and at which it rounds
+    to zero (4855 s: W < 2^-1075, half the smallest subnormal); proved in
+    [EstimatorProofs.weight_underflow] *)
+Definition RN64 (x : R) : R :=
+  Flocq.Core.Generic_fmt.round Flocq.Core.Zaux.radix2 (Flocq.Core.FLT.FLT_exp (-1074) 53)
+    (Flocq.Core.Generic_fmt.Znearest (fun z => negb (Z.even z))) x.
+Definition STALL_SUBNORMAL_NS : N := 4615000000000.
+Definition STALL_ZERO_NS : N := 4855000000000.
 
 (** translation of the positions *)
 Definition est_shift {F} (p : N) (e : est F) : est F :=
